@@ -68,8 +68,13 @@ func (e *Embed) GenerateOutput(textOnly bool) string {
 	// TODO: Maybe just to be save we should sanitize it.
 	tagName := dom.TagName(e.Element)
 	if tagName == "blockquote" || tagName == "iframe" {
-		for _, node := range dom.QuerySelectorAll(e.Element, "script,style") {
-			node.Parent.RemoveChild(node)
+		for _, node := range dom.GetElementsByTagName(e.Element, "*") {
+			tagName := dom.TagName(node)
+			if tagName == "script" || tagName == "style" || domutil.IsForeignRawTextElement(node) {
+				if node.Parent != nil {
+					node.Parent.RemoveChild(node)
+				}
+			}
 		}
 
 		domutil.StripAttributes(e.Element)
